@@ -422,7 +422,9 @@ EXOTIC_TYPES = ["fn(u8) -> u8", "*const u8", "[u8; 4]", "(u8, i8)", "&'static st
                 "[i8; if true { 1 } else { 2 }]", "[u16; { let x = 1; x }]", "[i16; const { 1 }]", "[u32; match 2usize { 2 => 1, _ => 3 }]", "[i32; [1, 2][0]]",
                 "H<(), { if true { 5 } else { 2 } }>", "[u64; loop { break 1 }]",
                 # the deriving type named `Self` inside its own fields
-                "Option<Box<Self>>", "Vec<Self>", "fn(&Self) -> u8", "*const Self"]
+                "Option<Box<Self>>", "Vec<Self>", "fn(&Self) -> u8", "*const Self",
+                # a trait object whose lifetime is left implicit, behind a raw pointer (known finding c01-implicit-object-lifetime-behind-pointer)
+                "*const dyn ::core::fmt::Debug", "(u8, *mut dyn ::core::fmt::Debug)"]
 AGNOSTIC = ["Constructor", "From", "Into", "IsVariant", "Unwrap", "TryUnwrap", "TryInto", "TryFrom"]
 EXOTIC_SHAPES = (["struct S(%s);" % t for t in EXOTIC_TYPES] + ["struct S { a: %s, b: u8 }" % t for t in EXOTIC_TYPES] +
                  ["enum S { A(%s), B { x: %s }, Cc }" % (t, EXOTIC_TYPES[(i + 1) % len(EXOTIC_TYPES)]) for i, t in enumerate(EXOTIC_TYPES)] +
@@ -555,7 +557,8 @@ def part_accepted_compiles(chk, thorough):
             continue
         src = "%s#[derive(derive_more::%s)] %s" % (PREREQ.get(d, ""), d, it)
         cases.append(Case("g%d" % len(cases), "#[allow(unused_imports)] use super::*;\n" + src, has_run=False, meta=dict(derive=d, src=src, twin=it, on_all=(d, it) in on_all,
-                                                                                                                   known="c01-generic-parameter-naming-lints" if re.search(r"S<(t|r#type)\b", it.replace(" ", "")) else None)))
+                                                                                                                   known="c01-generic-parameter-naming-lints" if re.search(r"S<(t|r#type)\b", it.replace(" ", "")) else
+                                                                                                                   ("c01-implicit-object-lifetime-behind-pointer" if re.search(r"\*(const|mut)dyn::core::fmt::Debug[,)]", it.replace(" ", "")) and "ref" in it else None))))
     # the companion impl a derive builds on written by hand instead of derived (deref_mut.md: "requires that the type also implements
     # Deref, so usually Deref should also be derived"; likewise IndexMut/Index and Sum/Add), on generic types
     # known finding: `#[deref_mut(forward)]` adds `where FieldTy: DerefMut`; once that predicate mentions a parameter it hides what
